@@ -518,14 +518,16 @@ func (env *specEnv) ident(name string) SV {
 			}
 		}
 	}
-	if g, ok := e.W.C.GhostVar[name]; ok {
-		srt, _ := ghostSort(e, g.Sort)
-		return SV{T: e.hget(env.cur, "$gv$"+name, srt), Sort: srt}
-	}
+	// a local variable of the function shadows a package-level ghost of the same name (ghost variables are global
+	// across packages: libspec `ghost var released` must not capture a local called released)
 	if !env.noLocals && !env.onlyGhostLocals {
 		if v, ok := env.local(name); ok {
 			return v
 		}
+	}
+	if g, ok := e.W.C.GhostVar[name]; ok {
+		srt, _ := ghostSort(e, g.Sort)
+		return SV{T: e.hget(env.cur, "$gv$"+name, srt), Sort: srt}
 	}
 	if env.pkg != nil {
 		if obj := env.pkg.Scope().Lookup(name); obj != nil {
